@@ -37,6 +37,7 @@ struct_inv_of_check struct_rawget_spec struct_get_spec struct_get_depth_cutoff s
 struct_to_table_spec to_struct_certified thaw_freeze_same_map table_rawget_ignores_proto
 struct_put_establishes_inv struct_begin_inv to_struct_spec struct_roundtrip_same_map with_proto_spec
 fromPuts_putsOf_spec thaw_flat_spec freeze_level_spec thaw_freeze_level_same_map struct_end_spec struct_literal_spec
+struct_put_existing_key struct_put_any_key struct_begin_ordered struct_last_value_wins
 """.split()
 ENV = dict(os.environ, ASAN_OPTIONS="detect_leaks=0:abort_on_error=0:allocator_may_return_null=1", UBSAN_OPTIONS="print_stacktrace=1")
 NT, NS, NA, NB = 4, 2, 3, 3
@@ -229,11 +230,41 @@ class Gen:
                     kv += [K() if r.chance(9, 10) else r.choice(["nil", "nan"]), self.val(8)]
                 if r.chance(1, 12):
                     kv.append(K())       # odd argument count -> error
+                ks = [k for k in kv[0::2] if k.startswith("K")]
+                if len(set(ks)) < len(ks):
+                    self.note("mkstruct:repeated-key")   # the `status == 0` replace path (struct_last_value_wins)
                 ops.append("mkstruct %s %s" % (S(), " ".join(kv)))
             else:
                 ops.append("withproto %s %s %s" % (S(), S() if r.chance(3, 4) else "nil", S()))
         for o in ops:
             self.note(o.split()[0])
+        return ops
+
+    def dup_literal_history(self, nlit=24):
+        """struct literals that REPEAT keys, the keys colliding in one or two home buckets (the `status == 0` replace path
+        of janet_struct_put_ext behind swapped / displaced entries), nil values in between, then every reader"""
+        r = self.r
+        ops = []
+        for _ in range(nlit):
+            ws = self.working_set(r.choice([2, 3, 4, 6, 9]))
+            n = r.range(len(ws) + 1, 3 * len(ws) + 3)
+            kv = []
+            for _ in range(n):
+                kv += ["K%d" % r.choice(ws), self.val(10)]
+            s = "S%d" % r.below(NS)
+            ops.append("mkstruct %s %s" % (s, " ".join(kv)))
+            self.note("mkstruct")
+            self.note("mkstruct:repeated-key")
+            ops += ["len %s" % s, "pairs %s" % s]
+            for k in ws[:4]:
+                ops.append(r.choice(["get %s K%d", "in %s K%d", "rawget %s K%d", "next %s K%d"]) % (s, k))
+            if r.chance(1, 3):
+                ops.append("totable %s T%d" % (s, r.below(NT)))
+            if r.chance(1, 3):
+                ops.append("withproto %s nil %s" % (s, s))
+        for o in ops:
+            if not o.startswith("mkstruct"):
+                self.note(o.split()[0])
         return ops
 
     def growth_history(self, n):
@@ -1371,6 +1402,8 @@ def run(ctx, only_ops=None):
         for i in range(n_tab):
             w = ctx.rng.choice([3, 6, 6, 12, 12, 24, 40, 40, 80, 160])
             hists.append(("table", g.table_history(ctx.rng.range(20, 260), w)))
+        for i in range(40 if quick else 300):
+            hists.append(("dup-literal", g.dup_literal_history()))
         for i in range(6 if quick else 40):
             hists.append(("growth", g.growth_history(ctx.rng.choice([130, 270, 530, 600]))))
         for i in range(n_seq):
